@@ -83,7 +83,7 @@ PROPS["C02"] = dict(
           "with nil elements, groups nested to depth 6, empty groups/keys, error values; Println with no or a non-string first argument). "
           "Non-trivial: the list has a malformed/structured element, >=34 args, a Println special form or a blank Print; distinct = "
           "(format, entry kind, shape set, println mode, admitted, number of selected writers)."
-          " Some configurations are built with AddWriter/AddErrorWriter only (both orders; the standard devices stay in the lists, pointed at /dev/null); the flags are set through SetFlags, Add/RemoveFlags, an open SaveFlagsAndMod scope or after its restore function."),
+          " Some configurations are built with AddWriter/AddErrorWriter only (both orders; the standard devices stay in the lists, pointed at /dev/null); the flags are set through SetFlags, Add/RemoveFlags, an open SaveFlagsAndMod scope or after its restore function. Messages and values of 64 KiB - 1 MiB are mixed in."),
     assumptions=["the destination set is computed with the C03 routing model (per-level > error-class > normal)"],
     stages=[
         dict(name="delivery", run="^TestDelivery$", quick=30000, thorough=1200000, shards=16, timeout_thorough=3000),
@@ -103,7 +103,7 @@ PROPS["C03"] = dict(
     rule=("rapid draws 1-3 loggers (roots/children, optionally created with 1-4 writer options) and up to 30 steps of writer operations and "
           "probes, then probes every logger at Info, Error and a drawn severity. Non-trivial: the history contains a remove or reset that "
           "changed the model state, or a probe answered by per-level writers or at a custom level; distinct = (operation-name sequence, class set)."
-          " Six custom levels cover every combination of error device / treated-as / negative value / unregistered; in a fifth of the histories one pool writer fails on every Write (routing must be unaffected)."),
+          " Six custom levels cover every combination of error device / treated-as / negative value / unregistered; in a fifth of the histories one pool writer fails on every Write (routing must be unaffected); the package default logger (and children of it, uniquely named per case) takes part in the histories."),
     assumptions=["each record carries a unique probe token, counted in the captured streams",
                  "all loggers are at level Always so that every severity except Off is admitted (gating is C01)"],
     stages=[
@@ -220,7 +220,7 @@ PROPS["C06"] = dict(
            "colour across its own lines), no control byte other than LF and no ESC outside SGR sequences unless the message itself contains "
            "control bytes; (b) for layout on the stripped text: timestamp, optional name, [tag] of the configured width, first line padded to "
            "the minimal width, attributes key=value in ascending order compared by meaning, caller tail, remaining lines indented by 4 spaces."),
-    note="Layout class: messages without '<', '>', '&' and control characters other than LF; values of kinds whose colored rendering tokenises unambiguously (no fallback kinds). Padding is exact for ASCII first lines, a lower bound (byte width) for non-ASCII ones. Tabs inside the go-test error dump are tolerated. The caller tail is only checked for its shape (C14 owns its content). One open known finding (translator-injected control bytes).",
+    note="Layout class: messages without '<', '>', '&' and control characters other than LF; values of kinds whose colored rendering tokenises unambiguously (no fallback kinds). Padding is exact for ASCII first lines, a lower bound (byte width) for non-ASCII ones. Tabs inside the go-test error dump are tolerated. The caller tail is only checked for its shape (C14 owns its content). A raw tab is tolerated when the message contains '&' (a tab written as a character reference is the message's own tab).",
     rule=("rapid draws the scenario: 2/3 layout class, 1/3 hygiene class (any message without ESC incl. markup, every value kind). Non-trivial: a "
           "multi-line message, or a level without colour entry, or a value with control bytes, or widths different from the defaults; distinct = "
           "(class set, severity, tag width, minimal width bucket, number of rest lines)."
@@ -237,12 +237,14 @@ PROPS["C06"] = dict(
 
 PROPS["C09"] = dict(
     pkg="c09", level="exploration",
-    technique="metamorphic property-based testing (rapid): the same explicit-timestamp call replayed after independently generated histories must give identical bytes",
+    technique="metamorphic property-based testing (rapid): the same explicit-timestamp call replayed after independently generated histories must give identical bytes; plus a cross-process differential (two fresh child processes, one with and one without a preceding history)",
     claim=("A generated probe call (any format, any severity incl. registered-with-colour, registered-without, unregistered, explicit "
            "timestamp, fixed caller pc, groups, errors, multi-line and buffer-growing messages, UTC mode) is emitted four times: first, "
            "after a generated history of 0-40 other calls (other loggers, formats, severities, sizes; optionally on three other goroutines with "
            "the last call on the probe's own goroutine), after a second history, and immediately again; all four payloads must be "
-           "byte-identical. Exploration of sampled (history, probe) pairs."),
+           "byte-identical. Process-lifetime state (anything initialised by the first record of a process) is covered by a cross-process stage: two "
+           "fresh child processes draw the same probes from the same seed, one emits only the probes, the other a history before each; "
+           "the probe payloads of both processes must be byte-identical. Exploration of sampled (history, probe) pairs."),
     note="sync.Pool reuse cannot be forced or observed from outside; the last history call runs on the probe's goroutine so that the probe normally picks up the context that call returned to the pool. GC may drop pooled objects (covered statistically).",
     rule=("rapid draws the probe and two histories. Non-trivial: a history contains a record longer than the probe, or of another format, or a "
           "colored record of another severity; distinct = (format, severity, named, caller, class set, lengths of both histories)."
@@ -319,7 +321,7 @@ PROPS["C18"] = dict(
            "order with a leading, component-wise prefix replacement; a protected prefix must never come through; paths outside all mappings "
            "must come back unchanged or as a shorter equivalent relative path; nothing may panic. The caller.file of records emitted in all "
            "three formats from a harness call site, under mappings over ancestors of the harness's source directory, must satisfy the same predicate."),
-    note="Not asserted (labelled only): textual look-alike prefixes (/rootkit vs /root) and paths in which a prefix re-occurs inside; when a regexp mapping or the /Volumes rule can interfere only the prefix rule and no-panic are asserted; removal of the home/cwd mapping is only exercised in the caller-field test (cwd). Mappings onto their own prefix are not generated.",
+    note="Not asserted (labelled only): textual look-alike prefixes (/rootkit vs /root) and paths in which a prefix re-occurs inside; when a regexp mapping or the /Volumes rule can interfere only the prefix rule and no-panic are asserted; removal of the home/cwd mapping is only exercised in the caller-field test (cwd). Mappings onto their own prefix and cyclic mapping chains are not generated; when a registered replacement itself lies under a protected prefix, that prefix may show (the user asked for it).",
     rule=("rapid draws 0-6 table operations, the two flags and 1-4 paths. Non-trivial: >= 2 applicable mappings, or an absolute replacement, or a "
           "remove before the query; distinct = (table history, flags, paths)."
           " A quarter of the mappings are registered with a trailing separator; flags are set through all public ways."),
@@ -344,7 +346,7 @@ PROPS["C14"] = dict(
     note="Expected file is slog.Safety(file) (C18 owns the path policy); colored mode prints the function without its package path. log.Logger.Output called directly, goroutine entry points, deferred calls and cgo callers are not built.",
     rule=("matrix enumeration plus rapid sampling (privacy flags toggled). Non-trivial: skip >= 1, or an entry point that is not a method of the "
           "logger (package-level, adapter, bridge); distinct = the cell."
-          " Also: log/slog Loggers derived with With/WithGroup, an earlier SetSkip before the final one, a sibling WithSkip child created afterwards, flags set through all public ways."),
+          " Also: log/slog Loggers derived with With/WithGroup, an earlier SetSkip before the final one, a sibling WithSkip child created afterwards, a SetSkip issued after an adapter/bridge was built on the logger, flags set through all public ways."),
     assumptions=["runtime.Callers / CallersFrames give the true logical frames (also for inlined functions)"],
     stages=[
         dict(name="matrix", run="^TestMatrix$", quick=1, thorough=1),
@@ -370,7 +372,7 @@ PROPS["C15"] = dict(
     rule=("rapid draws the scenario. Non-trivial (handler): a derivation chain of length >= 1, a group / LogValuer / Any attribute, or a "
           "non-standard level; distinct = (format, logger level, slog level, chain length, class set, path, emitted). Bridge: every case is "
           "keyed by (level, severity, admitted, call, newline count)."
-          " Every intermediate handler also gets decoy siblings derived after the real one; 1-3 records go through the same handler; the logger's level may change after the bridge was built."),
+          " Every intermediate handler also gets decoy siblings derived after the real one; 1-3 records go through the same handler; the logger's level may change after the bridge was built; up to 7 WithAttrs steps; record attributes may collide with handler attribute keys (last wins; effectively empty groups under a handler key are not generated)."),
     assumptions=["log/slog of the building toolchain constructs the records"],
     stages=[
         dict(name="levels", run="^TestLogLevelMapping$", quick=1, thorough=1),
@@ -394,7 +396,7 @@ PROPS["C10"] = dict(
     note="Each case installs a fresh default logger (the process-wide one keeps children of earlier cases and has no public reset). Every logger gets private recording writers right after creation (child loggers do not inherit writers). The wall clock seeding the anonymous names cannot be owned by the harness: covered by the stress test. The production-binary stage checks the Warn default level.",
     rule=("rapid draws the history. Non-trivial: >= 3 loggers and (a With* and a Set* occurred, or New was called with the name of an existing "
           "child); distinct = the history text."
-          " Child names may repeat names used elsewhere in the forest; attrs1 settings may hand the same Attrs value to several loggers."),
+          " Child names may repeat names used elsewhere in the forest; attrs1 settings may hand the same Attrs value (drawn from a pool with spare capacity) to several loggers; writers are installed with Set* or with Add* on top of the inherited defaults."),
     assumptions=["gating oracle = C01 rule incl. the debug-mode side effect of SetLevel(Debug)", "record decoding = C04/C05 decoders, merge = C07 reference"],
     stages=[
         dict(name="testing", run="^TestHierarchy$", quick=4000, thorough=150000, shards=16, timeout_thorough=3000),
@@ -416,7 +418,7 @@ PROPS["C08"] = dict(
     note="WEAKEST claim of the set: interleavings are sampled by the Go scheduler, not enumerated or controlled; the race detector only reports races on executed paths. Concurrent reconfiguration while logging is outside the claim and never generated. A race report cannot be shrunk by rapid (it is attributed to the whole test); the replay re-runs the stage with the same seed.",
     rule=("Non-trivial: >= 2 goroutines share a logger and a group value or logger attributes or a parent/child pair are involved; distinct = "
           "(formats present, sharing shape, G bucket, number of loggers, GOMAXPROCS, multi-line)."
-          " Workloads may contain blank Print/Println calls (counted), loggers with context keys (every call carries its own context values) and unregistered numeric levels (one per goroutine); the Group value shared by the callers must be unmodified afterwards."),
+          " Workloads may contain blank Print/Println calls (counted), loggers with context keys (every call carries its own context values) and unregistered numeric levels (one per goroutine); the Group value shared by the callers must be unmodified afterwards. Records may also arrive through log/slog adapters and std log bridges built before or after the loggers were configured, through per-level writers, and with attribute values of several kilobytes."),
     assumptions=["the recording writers are mutex-protected and copy the payload before returning"],
     stages=[
         dict(name="race", run="^TestConcurrentWorkloads$", race=True, crash_is_violation=True, quick=400, thorough=16000, shards=8, timeout_quick=900, timeout_thorough=3000),
